@@ -11,6 +11,7 @@
    of tools/c01.py; that part is testing, not proof (see evidence.unproved_clauses). *)
 From Coq Require Import List ZArith NArith Bool.
 From SC.gen Require Import SevTable.
+From SC Require P21Str P21Scan P21Skip P21Skip_Proofs.
 From SC Require Import P21Lex P21Lex_Proofs P21Syntax P21Syntax_Proofs.
 Import ListNotations.
 Local Open Scope Z_scope.
@@ -50,6 +51,28 @@ Print Assumptions c01_string_write_read.
 Theorem c01_refs_shift : forall k p, refs_of (shift_refs k p) = map (fun n => n + k) (refs_of p).
 Proof. exact refs_shift. Qed.
 Print Assumptions c01_refs_shift.
+
+(* the end of a record as the first pass sees it (src/clstepcore/read_func.cc SkipInstance, coq/P21Skip.v):
+   whatever strings (with any content: semicolons, slashes, doubled and page-escaped apostrophes), comments (with any
+   text that lacks the closing mark) and other characters a record is made of, it ends at the first semicolon after
+   it and nothing of what follows is consumed; a record that is never closed is never taken for a complete one *)
+Theorem c01_record_ends_at_its_semicolon : forall ts rest,
+  P21Skip.stoks_ok ts (P21Scan.SEMI :: rest) = true ->
+  P21Skip.skip_inst (P21Skip.srender ts ++ P21Scan.SEMI :: rest) = Some rest.
+Proof. exact P21Skip_Proofs.skip_instance_wellformed. Qed.
+Print Assumptions c01_record_ends_at_its_semicolon.
+
+Theorem c01_unterminated_record_reported : forall ts f,
+  P21Skip.stoks_ok ts [] = true -> P21Skip.skip_instance f (P21Skip.srender ts) = None.
+Proof. exact P21Skip_Proofs.skip_instance_unterminated. Qed.
+Print Assumptions c01_unterminated_record_reported.
+
+Example c01_skip_example :
+  let ts := [P21Skip.SChr 65%N; P21Skip.SChr 40%N; P21Skip.SStr [P21Str.Plain 120%N; P21Str.Plain 59%N; P21Str.Apos; P21Str.Page 39%N];
+             P21Skip.SChr 44%N; P21Skip.SCmt [32; 59; 32; 39; 42; 32]%N; P21Skip.SChr 32%N; P21Skip.SChr 35%N; P21Skip.SChr 49%N; P21Skip.SChr 41%N; P21Skip.SChr 32%N] in
+  P21Skip.stoks_ok ts (P21Scan.SEMI :: [35; 50]%N) = true /\
+  P21Skip.skip_inst (P21Skip.srender ts ++ P21Scan.SEMI :: [35; 50]%N) = Some [35; 50]%N.
+Proof. vm_compute. split; reflexivity. Qed.
 
 (* non-vacuity *)
 Example c01_example :
